@@ -98,6 +98,18 @@ class World:
             self.rph.issuer2rp[i] = rpbase.make_rp(iss=i, httpc=self.ops[i])
         self.flows = []
 
+    def crash(self, mode="ctx"):
+        """C13 (relying-party side): export every client's service context, discard the clients, build fresh ones from the same
+        configuration and import — pending flows, tokens and bindings must survive"""
+        for i in ISSUERS:
+            old = self.rph.issuer2rp[i]
+            store = old.get_context().dump()
+            if mode == "json":
+                store = json.loads(json.dumps(store))
+            new = rpbase.make_rp(iss=i, httpc=self.ops[i])
+            new.get_context().load(store)
+            self.rph.issuer2rp[i] = new
+
     def dump(self):
         out = {}
         for i in ISSUERS:
@@ -159,7 +171,10 @@ def impl(c):
         before = W.dump()
         rec = {"model": None}
         try:
-            if o[0] == "begin":
+            if o[0] == "crash":
+                W.crash(o[1])
+                rec.update(r="ok", model=None)
+            elif o[0] == "begin":
                 iss = ISSUERS[o[1]]
                 rp = W.rph.issuer2rp[iss]
                 url = rp.init_authorization(req_args={"response_type": o[3], "scope": ["openid"]})
